@@ -58,6 +58,32 @@ type Op struct {
 	UseCtx       bool `json:"use_ctx,omitempty"`
 	PreCancelled bool `json:"pre_cancelled,omitempty"`
 	Inherit      bool `json:"inherit,omitempty"` // nested publish derives its context from the handler's
+	Deadline     bool `json:"deadline,omitempty"` // the context ends with DeadlineExceeded instead of Canceled
+}
+
+// manualCtx is a context whose end is triggered by the harness and reported as DeadlineExceeded
+// (a deadline that expires at a chosen logical point, without any wall-clock in the scenario).
+type manualCtx struct {
+	context.Context
+	mu   sync.Mutex
+	done chan struct{}
+	err  error
+}
+
+func (m *manualCtx) Done() <-chan struct{} { return m.done }
+func (m *manualCtx) Err() error {
+	m.mu.Lock()
+	defer m.mu.Unlock()
+	return m.err
+}
+func (m *manualCtx) Deadline() (time.Time, bool) { return time.Unix(1, 0), true }
+func (m *manualCtx) fire() {
+	m.mu.Lock()
+	if m.err == nil {
+		m.err = context.DeadlineExceeded
+		close(m.done)
+	}
+	m.mu.Unlock()
 }
 
 // Cfg configures the bus for a program.
@@ -129,6 +155,7 @@ type pubInfo struct {
 	asyncRegs  []int
 	panicsSync int
 	returned   bool
+	ctx        context.Context
 }
 
 // Engine executes one program.
@@ -243,10 +270,13 @@ func New(drivers []evt.Driver, p *Program, viol func(sig, desc string)) *Engine 
 }
 
 // NewWith is New with an Observability implementation replacing the recording one.
-func NewWith(drivers []evt.Driver, p *Program, viol func(sig, desc string), obs ebu.Observability) *Engine {
-	e := &Engine{Drivers: drivers, P: p, Viol: viol, MaxDepth: 3, ObsImpl: obs, execLog: map[string]int{},
+func NewWith(drivers []evt.Driver, p *Program, viol func(sig, desc string), obsFactory func(*Engine) ebu.Observability) *Engine {
+	e := &Engine{Drivers: drivers, P: p, Viol: viol, MaxDepth: 3, execLog: map[string]int{},
 		model: map[int][]*mreg{}, asyncGot: map[[2]uint64]int{}, asyncWant: map[[2]uint64][2]int{},
 		asyncPanic: map[[2]uint64]int{}, pubs: map[uint64]*pubInfo{}}
+	if obsFactory != nil {
+		e.ObsImpl = obsFactory(e)
+	}
 	c := p.Cfg
 	var opts []ebu.Option
 	storeOpt := func() {
@@ -544,7 +574,12 @@ func (e *Engine) doPub(op *Op, hctx context.Context) {
 			base = hctx
 		}
 		base = context.WithValue(base, pubKey{}, eid)
-		f.ctx, f.cancel = context.WithCancel(base)
+		if op.Deadline {
+			mc := &manualCtx{Context: base, done: make(chan struct{})}
+			f.ctx, f.cancel = mc, mc.fire
+		} else {
+			f.ctx, f.cancel = context.WithCancel(base)
+		}
 		e.cancels = append(e.cancels, f.cancel)
 		if op.PreCancelled {
 			f.cancel()
@@ -572,18 +607,24 @@ func (e *Engine) doPub(op *Op, hctx context.Context) {
 	}
 	e.frames = e.frames[:len(e.frames)-1]
 	e.mu.Lock()
-	pi.cancelled = f.cancelled
+	pi.cancelled = f.isCancelled()
+	pi.ctx = f.ctx
 	pi.syncRegs = f.syncRegs
 	pi.asyncRegs = f.asyncRegs
 	pi.returned = true
 	for _, rid := range f.asyncRegs {
-		w := [2]int{1, 1}
-		if f.cancelled {
-			w[0] = 0 // the goroutine may find the context cancelled when it starts
-		}
-		e.asyncWant[[2]uint64{uint64(rid), eid}] = w
+		e.asyncWant[[2]uint64{uint64(rid), eid}] = [2]int{1, 1}
 	}
 	e.mu.Unlock()
+}
+
+// isCancelled reads the publish context itself (it may derive from an outer handler's context
+// that was cancelled in the meantime).
+func (f *frame) isCancelled() bool {
+	if f.ctx != nil && f.ctx.Err() != nil {
+		f.cancelled = true
+	}
+	return f.cancelled
 }
 
 // advance moves the model's dispatch loop of frame f forward until the registration `until` is
@@ -595,7 +636,7 @@ func (e *Engine) advance(f *frame, until *mreg) bool {
 		if !accepts(r.spec.Filter, f.eid) {
 			continue
 		}
-		if f.cancelled {
+		if f.isCancelled() {
 			continue // skipped without using up a once handler
 		}
 		if r.spec.Once {
@@ -669,7 +710,7 @@ func (e *Engine) invoke(r *mreg, ctx context.Context, id uint64, payloadOK bool)
 					}
 					e.depth--
 				}
-				if r.spec.CancelAt == k+1 && f.cancel != nil && !f.cancelled {
+				if r.spec.CancelAt == k+1 && f.cancel != nil && !f.isCancelled() {
 					f.cancel()
 					f.cancelled = true
 					e.Stats.Cancels++
@@ -768,6 +809,10 @@ func (e *Engine) finishAsync() {
 		}
 	}
 	for k, w := range e.asyncWant {
+		if pi := e.pubs[k[1]]; pi != nil && pi.ctx != nil && pi.ctx.Err() != nil {
+			w[0] = 0 // the goroutine may have found the context cancelled when it started
+			pi.cancelled = true
+		}
 		if e.asyncGot[k] < w[0] {
 			e.failLocked("registry:missing-async-delivery", "async registration #%d never ran for event %d (after Wait)", k[0], k[1])
 		}
